@@ -160,7 +160,11 @@ def oracle(out):
         want = a['start'] + a['dt']
         if b['start'] != want:
             gap = F(b['start']) - (F(a['start']) + F(a['dt']))
-            if a['block'] == 0 and b['block'] <= 1 and abs(gap) <= 2 * F(ulp(want)):
+            # was the start computed by run()'s initial formula t0 + sum(dt_0..dt_{p-1}) (first block, or the restart
+            # position inside the first block)?  evaluated with the interpreter's own sum(), as the code does
+            p = b['slot'] if b['block'] == 0 else a['pos'] + 1
+            init_form = t0 + sum(case['dt'] for _ in range(p))
+            if a['block'] == 0 and b['start'] == init_form:
                 bad.append(('tiling', 'initial_times_association',
                             'start time %s of slot %d computed in the first block as t0 + sum(dt) differs from the end %s of the step in slot %d (chained sum)'
                             % (fhex(b['start']), b['slot'], fhex(want), a['slot'])))
@@ -205,15 +209,21 @@ def oracle(out):
     if fixed and not case.get('paradiag'):
         dt = case['dt']
         # "up to rounding": the rounding of ONE evaluation of t0 + N*dt (a few ulps), not the error accumulated by N additions
-        delta = 8 * F(ulp(max(abs(t0), abs(tend))))
+        delta = max(8 * F(ulp(max(abs(t0), abs(tend)))), F(TOL))   # never tighter than the controller's own 10 eps
         nstar = max(1, math.ceil((F(tend) - delta - F(t0)) / F(dt)))
         if len(acc) != nstar:
             last = acc[-1]
             cause = 'other'
-            if len(acc) == nstar + 1 and F(t0) + nstar * F(dt) >= F(tend) - delta and last['start'] < tend - TOL:
-                cause = 'accumulated_float_time'
+            if abs(len(acc) - nstar) == 1:
+                # did the accumulated floating-point time decide differently from the exact t0 + k*dt at the step in question?
+                k = min(len(acc), nstar)
+                float_k = acc[k]['start'] if k < len(acc) else last['start'] + last['dt']
+                float_active = float_k < tend - TOL
+                exact_active = F(t0) + k * F(dt) < F(tend) - delta
+                if float_active != exact_active:
+                    cause = 'accumulated_float_time'
             bad.append(('step_count', cause,
-                        '%d accepted steps, smallest N with t0 + N*dt >= Tend (up to 8 ulp) is %d; last step starts at %s (t0=%r dt=%r Tend=%r)'
+                        '%d accepted steps, smallest N with t0 + N*dt >= Tend (up to max(8 ulp, 10 eps)) is %d; last step starts at %s (t0=%r dt=%r Tend=%r)'
                         % (len(acc), nstar, fhex(last['start']), t0, dt, tend)))
     for k in bad:
         pass
@@ -292,7 +302,7 @@ def gen_cases(rng, thorough):
         add(P=P, t0=0.0, dt=0.1, tend=10.0)
     add(P=3, t0=0.2, dt=0.05, tend=0.5)
     add(P=4, t0=0.0, dt=0.125, tend=2.0)
-    nrand = 260 if thorough else 110
+    nrand = 1000 if thorough else 330
     for _ in range(nrand):
         P = rng.randint(1, 8)
         kind = rng.choice(['zero', 'small', 'large', 'neg'])
